@@ -15,7 +15,7 @@ import multiprocessing as real_mp
 import threading
 import time
 import types
-from queue import Empty
+from queue import Empty, Full
 
 import z3
 
@@ -54,7 +54,13 @@ def recording_mp(rec, queue_script=None):
             if maxsize and maxsize > 0:
                 rec.ops.append(("maxsize", maxsize, self.qid))
 
-        def put(self, item, *a, **k):
+        def put(self, item, block=True, timeout=None):
+            rec.n_put_calls = getattr(rec, "n_put_calls", 0) + 1
+            if timeout is not None or not block:
+                rec.put_timeouts = getattr(rec, "put_timeouts", set()) | {self.qid}
+                if rec.n_put_calls in getattr(rec, "full_at", ()):
+                    rec.ops.append(("full", self.qid))
+                    raise Full()
             rec.ops.append(("put", self.qid, item))
             self.items.append(item)
 
@@ -112,11 +118,11 @@ def recording_mp(rec, queue_script=None):
         @property
         def exitcode(self):
             rec.ops.append(("exitcode", self.wid))
-            return rec.exitcode_value
+            return getattr(rec, "exitcode_of", {}).get(self.wid, rec.exitcode_value)
 
         def is_alive(self):
             rec.ops.append(("is_alive", self.wid))
-            return rec.alive_value
+            return getattr(rec, "alive_of", {}).get(self.wid, rec.alive_value)
 
     return types.SimpleNamespace(Queue=Q, Event=E, Process=P)
 
@@ -151,6 +157,43 @@ def extract_producer(run_entry, queue_script=None, exitcode=0, alive=True):
             rec.returned = False
             rec.raised = "%s: %s" % (type(e).__name__, e)
     return rec
+
+
+def extract_full_reaction(run_entry, n_workers):
+    """How does the real entry point react when a put() on its bounded queue times out (queue.Full)?
+    None if it never passes a time-out to put().  Otherwise a dict:
+      raises_if_some_dead / raises_if_all_dead : it raises at that moment when one / every worker is not alive
+      prunes_dead : after a Full with worker 0 dead it goes on, and worker 0's exit code is never read afterwards"""
+    base = extract_producer(run_entry)
+    if not getattr(base, "put_timeouts", None):
+        return None
+
+    def probe(dead):
+        rec = Recorder()
+        rec.exitcode_value, rec.alive_value = 0, True
+        rec.alive_of = {w: False for w in dead}
+        rec.exitcode_of = {w: 1 for w in dead}
+        rec.full_at = {1}
+        rec.raised = None
+        fake = recording_mp(rec)
+        with patched_mp(fake):
+            try:
+                run_entry()
+                rec.returned = True
+            except Stop:
+                rec.returned = False
+            except Exception as e:
+                rec.returned = False
+                rec.raised = "%s: %s" % (type(e).__name__, e)
+        return rec
+
+    some = probe({0})
+    allw = probe(set(range(n_workers)))
+    after = some.ops[some.ops.index(("full", [o for o in some.ops if o[0] == "full"][0][1])):] if any(o[0] == "full" for o in some.ops) else []
+    checked = {o[1] for o in after if o[0] == "exitcode"}
+    raised_at_full = some.raised is not None and not any(o[0] == "put" for o in after)
+    return dict(raises_if_some_dead=raised_at_full, raises_if_all_dead=allw.raised is not None and not any(o[0] == "put" for o in allw.ops[allw.ops.index([o for o in allw.ops if o[0] == "full"][0]):]),
+                prunes_dead=(not raised_at_full) and 0 not in checked, reads_exit_codes_of=sorted(checked), raised_finally=some.raised)
 
 
 # ------------------------------------------------------------------ 2. worker reaction table
@@ -282,7 +325,7 @@ NOTPUT, INBUF, INPIPE, HELD, RUNNING, CBDONE, FINISHED, LOST = range(8)
 W_NOTSTARTED, W_IDLE, W_BUSY, W_EXITED, W_DEAD, W_CHECK, W_READY = range(7)
 
 
-def stage_ts(script, table, n_workers, fault=False, detects=True):
+def stage_ts(script, table, n_workers, fault=False, detects=True, full=None):
     """script: producer ops [('start', w) | ('put', q, item) | ('close', q) | ('join_thread', q) | ('set',) | ('join', w)
     | ('exitcode', w) ...]; table: worker reaction table; fault: one callback (symbolic item) raises."""
     ts = bmc.TS("stage")
@@ -292,6 +335,8 @@ def stage_ts(script, table, n_workers, fault=False, detects=True):
     ts.var("pc", 8, 0)
     ts.var("flag", 1, 0)
     ts.var("raised", 1, 0)                       # the producer observed a worker failure and raised
+    for w in range(n_workers):
+        ts.var("pr%d" % w, 1, 0)                 # worker dropped from the producer's list after a put() time-out
     for i in range(I):
         ts.var("st%d" % i, 3, NOTPUT)
         ts.var("ow%d" % i, 3, 0)
@@ -329,18 +374,33 @@ def stage_ts(script, table, n_workers, fault=False, detects=True):
             put_no += 1
             g = (lambda pc: (lambda s: z3.And(s["pc"] == pc, z3.ULT(outstanding(s), maxsize) if maxsize > 0 else z3.BoolVal(True))))(pc)
             ts.t("put i%d" % i, "main", g, (lambda pc, i: (lambda s: {"pc": bmc.bv(pc + 1, 8), "st%d" % i: bmc.bv(INBUF, 3)}))(pc, i))
+            if full and maxsize > 0:
+                # put(timeout=...) on a queue that stays full: queue.Full, handled as extracted from the real code
+                isfull = (lambda pc: (lambda s: z3.And(s["pc"] == pc, outstanding(s) == maxsize)))(pc)
+                somedead = lambda s: z3.Or(*[s["ws%d" % w] == W_DEAD for w in range(W)])
+                alldead = lambda s: z3.And(*[z3.Or(s["ws%d" % w] == W_DEAD, s["ws%d" % w] == W_EXITED) for w in range(W)])
+                ts.t("put-timeout i%d (nobody dead)" % i, "main", (lambda isfull: (lambda s: z3.And(isfull(s), z3.Not(somedead(s)))))(isfull), lambda s: {}, spin=True)
+
+                def upd(s, end=len(script)):
+                    raise_now = z3.Or(z3.BoolVal(bool(full.get("raises_if_some_dead"))), z3.And(z3.BoolVal(bool(full.get("raises_if_all_dead"))), alldead(s)))
+                    out = {"raised": z3.If(raise_now, bmc.bv(1, 1), s["raised"]), "pc": z3.If(raise_now, bmc.bv(end, 8), s["pc"])}
+                    if full.get("prunes_dead"):
+                        for w in range(W):
+                            out["pr%d" % w] = z3.If(z3.And(z3.Not(raise_now), s["ws%d" % w] == W_DEAD), bmc.bv(1, 1), s["pr%d" % w])
+                    return out
+                ts.t("put-timeout i%d" % i, "main", (lambda isfull: (lambda s: z3.And(isfull(s), somedead(s), z3.Or(*[z3.And(s["ws%d" % w] == W_DEAD, s["pr%d" % w] == 0) for w in range(W)]))))(isfull), upd)
         elif kind == "join_thread":
             ts.t("join_thread", "main", (lambda pc: (lambda s: z3.And(s["pc"] == pc, buf_empty(s))))(pc), nxt)
         elif kind == "set":
             ts.t("set", "main", at, (lambda pc: (lambda s: {"pc": bmc.bv(pc + 1, 8), "flag": bmc.bv(1, 1)}))(pc))
         elif kind == "join":
             w = op[1]
-            ts.t("join w%d" % w, "main", (lambda pc, w: (lambda s: z3.And(s["pc"] == pc, z3.Or(s["ws%d" % w] == W_EXITED, s["ws%d" % w] == W_DEAD))))(pc, w), nxt)
+            ts.t("join w%d" % w, "main", (lambda pc, w: (lambda s: z3.And(s["pc"] == pc, z3.Or(s["ws%d" % w] == W_EXITED, s["ws%d" % w] == W_DEAD, s["pr%d" % w] == 1))))(pc, w), nxt)
         elif kind == "exitcode":
             w = op[1]
             # reading the exit code of a joined worker: a failure becomes visible (the producer raises)
             ts.t("exitcode w%d" % w, "main", at,
-                 (lambda pc, w: (lambda s: {"pc": bmc.bv(pc + 1, 8), "raised": z3.If(s["ws%d" % w] == W_DEAD, bmc.bv(1 if detects else 0, 1), s["raised"])}))(pc, w))
+                 (lambda pc, w: (lambda s: {"pc": bmc.bv(pc + 1, 8), "raised": z3.If(z3.And(s["ws%d" % w] == W_DEAD, s["pr%d" % w] == 0), bmc.bv(1 if detects else 0, 1), s["raised"])}))(pc, w))
         else:   # close, is_alive, anything without effect on the model
             ts.t(kind, "main", at, nxt)
     ts.end_pc = end
@@ -566,8 +626,14 @@ def sched_mp(S):
 
             threading.Thread(target=body, daemon=True).start()
 
-        def put(self, item, *a, **k):
-            S.op("put q%d" % self.qid, lambda: self.maxsize <= 0 or self.outstanding < self.maxsize)
+        def put(self, item, block=True, timeout=None):
+            if timeout is not None or not block:
+                # granted at a moment chosen by the schedule: Full iff the queue is full then (it stayed full for the time-out)
+                S.op("put q%d" % self.qid)
+                if self.maxsize > 0 and self.outstanding >= self.maxsize:
+                    raise Full()
+            else:
+                S.op("put q%d" % self.qid, lambda: self.maxsize <= 0 or self.outstanding < self.maxsize)
             me = S.me()
             if me not in self.bufs:
                 self.bufs[me] = []
@@ -744,7 +810,7 @@ WT_NOTREADY, WT_RBUF, WT_RPIPE, WT_HELD, WT_RUN, WT_CBDONE, WT_DBUF, WT_DPIPE, W
 
 
 def walk_ts(tree, n_workers, R, worker_post, done_maxsize, shutdown, fault=False, max_live_seeds=None, apex_breaks=True,
-            loop_detects_dead=False, detects=True, flag_read="after_empty"):
+            loop_detects_dead=False, detects=True, flag_read="after_empty", early_set=()):
     """tree: list of dicts(name, parent (index or None), bit, seed (bool: level == depth-1)).  The last entry is the apex.
     Liveness of every seed tile is a symbolic Boolean; an upper tile is live iff one of its children in the tree is.
     R: learned release table; shutdown: producer ops after the loop, e.g. ['close','join_thread','set','join','join'].
@@ -816,9 +882,13 @@ def walk_ts(tree, n_workers, R, worker_post, done_maxsize, shutdown, fault=False
             def upd(s, i=i, p=p, bit=t["bit"]):
                 rel = released_now(p, bit, s)
                 stp = s["st%d" % p]
-                return {"st%d" % i: bmc.bv(WT_CONS, 4), "rep%d" % p: s["rep%d" % p] | bmc.bv(1 << bit, 4),
-                        "st%d" % p: z3.If(rel, bmc.bv(WT_RBUF, 4), stp),
-                        "err": z3.If(z3.And(rel, stp != WT_NOTREADY), bmc.bv(1, 1), s["err"])}
+                out = {"st%d" % i: bmc.bv(WT_CONS, 4), "rep%d" % p: s["rep%d" % p] | bmc.bv(1 << bit, 4),
+                       "st%d" % p: z3.If(rel, bmc.bv(WT_RBUF, 4), stp),
+                       "err": z3.If(z3.And(rel, stp != WT_NOTREADY), bmc.bv(1, 1), s["err"])}
+                if p in early_set:
+                    # the real dispatcher sets the shutdown flag right after handing this tile out (extracted)
+                    out["flag"] = z3.If(rel, bmc.bv(1, 1), s["flag"])
+                return out
             ts.t("consume %s" % t["name"], "main", g, upd)
     # ---- dispatcher: shutdown script
     def rbuf_empty(s):
